@@ -32,10 +32,11 @@ package streams
 //@   modifies allof(flowMetricsData.totalFlowExecutionTimeNs), allof(flowMetricsData.totalFlowExecutions), allof(flowMetricsData.requestsThroughFlowsCounter)
 //@   ensures delta > 0 ==> result > 0
 
-// Well-formed flows, as package streams/flow builds them: both directions exist, an entry point has a node, nodes and
-// edges are allocated objects and no edge slot is nil.
+// Well-formed flows, as package streams/flow builds and validates them: both directions exist, an entry point has a node
+// that belongs to the validated (ranked, hence acyclic) part of the graph, nodes and edges are allocated objects and no
+// edge slot is nil.
 //@ ghost func nd(n internaltypes.FlowGraphNodeI) *streamflow.FlowGraphNode = n.(*streamflow.FlowGraphNode)
-//@ ghost func dirOK(d *streamflow.FlowDirection) bool = d != nil && (d.root != nil ==> d.root.node != nil && allocated(d.root.node)) && forall(k, string, in(k, d.nodes) ==> d.nodes[k] != nil && allocated(d.nodes[k]))
+//@ ghost func dirOK(d *streamflow.FlowDirection) bool = d != nil && (d.root != nil ==> d.root.node != nil && allocated(d.root.node) && d.root.node.ranked) && forall(k, string, in(k, d.nodes) ==> d.nodes[k] != nil && allocated(d.nodes[k]))
 //@ ghost func flowOK(f internaltypes.FlowI) bool = ifacenil(f) || (typeis(f, *streamflow.Flow) && fw(f).flowRep != nil && fw(f).contextManager != nil && dirOK(fw(f).request) && dirOK(fw(f).response))
 //@ ghost func nodeArgOK(n internaltypes.FlowGraphNodeI) bool = ifacenil(n) || (typeis(n, *streamflow.FlowGraphNode) && allocated(nd(n)))
 //@ ghost func graphOK() bool = forall(n, *streamflow.FlowGraphNode, allocated(n) ==> forall(k, 0, len(n.edges), n.edges[k] != nil && (n.edges[k].node != nil ==> allocated(n.edges[k].node))))
@@ -46,10 +47,10 @@ package streams
 // resuming after a processor answered the request itself, at the target of that processor's (first) connection — and
 // nothing is executed when the flow has no such direction or entry point.
 //@ func (*Stream).executeFlow
-//@   prop C04
+//@   prop C04, C05
 //@   results sc, err
 //@   requires s != nil && s.apiStreams != nil && s.metricsData != nil && actions != nil && actions.Request != nil && actions.Response != nil && xlen >= 0
-//@   requires flowOK(flow) && nodeArgOK(startFromNode) && graphOK()
+//@   requires flowOK(flow) && nodeArgOK(startFromNode) && graphOK() && rankedOK()
 //@   modifies now, xn, xo, xp, xlen, xpar, drops, fl, flen, actions.Request.Actions, actions.Response.Actions, allof(flowMetricsData.totalFlowExecutionTimeNs), allof(flowMetricsData.totalFlowExecutions), allof(flowMetricsData.requestsThroughFlowsCounter), allof(flowMetricsData.avgFlowExecutionTime)
 //@   allocates ProcessorIO
 //@   on entry do fl[flen] = fw(flow); flen = flen + 1
@@ -75,10 +76,10 @@ package streams
 
 // Responses: quota system flows (start group), user flows, system flows (end group) — each group in REVERSE order.
 //@ func (*Stream).executeRes
-//@   prop C04
+//@   prop C04, C05
 //@   opaque follows
 //@   requires s != nil && s.apiStreams != nil && s.metricsData != nil && rmOK(s.resources) && actions != nil && actions.Request != nil && actions.Response != nil && xlen >= 0 && flen >= 0
-//@   requires resultOK(flowsToExecute) && graphOK()
+//@   requires resultOK(flowsToExecute) && graphOK() && rankedOK()
 //@   requires shortCircuit != nil ==> nodeArgOK(shortCircuit.node) && !ifacenil(shortCircuit.flow) && flowOK(shortCircuit.flow)
 //@   modifies now, xn, xo, xp, xlen, xpar, drops, fl, flen, actions.Request.Actions, actions.Response.Actions, allof(flowMetricsData.totalFlowExecutionTimeNs), allof(flowMetricsData.totalFlowExecutions), allof(flowMetricsData.requestsThroughFlowsCounter), allof(flowMetricsData.avgFlowExecutionTime), smapof(regCtx(s.resources).ctx)
 //@   allocates ProcessorIO
@@ -120,11 +121,11 @@ package streams
 // then the system flows of the end group; if a user flow answered, the response side runs next (resuming that flow at
 // the answering processor).
 //@ func (*Stream).executeReq
-//@   prop C04
+//@   prop C04, C05
 //@   opaque follows
 //@   ghostlocal nuser int
 //@   requires s != nil && s.apiStreams != nil && s.metricsData != nil && rmOK(s.resources) && !ifacenil(s.filterTree) && actions != nil && actions.Request != nil && actions.Response != nil && xlen >= 0 && flen >= 0
-//@   requires resultOK(flowsToExecute) && graphOK()
+//@   requires resultOK(flowsToExecute) && graphOK() && rankedOK()
 //@   modifies now, xn, xo, xp, xlen, xpar, drops, fl, flen, actions.Request.Actions, actions.Response.Actions, allof(flowMetricsData.totalFlowExecutionTimeNs), allof(flowMetricsData.totalFlowExecutions), allof(flowMetricsData.requestsThroughFlowsCounter), allof(flowMetricsData.avgFlowExecutionTime), smapof(regCtx(s.resources).ctx)
 //@   allocates ProcessorIO, FilterResult, shortCircuitOperation
 //@   on entry do nuser = 0
@@ -148,10 +149,10 @@ package streams
 // Entry point for one transaction: when the filter tree selects no flow nothing at all is executed and no action is
 // produced (C03's pass-through clause); otherwise the request or the response orchestration runs on the selected flows.
 //@ func (*Stream).ExecuteFlow
-//@   prop C04, C03
+//@   prop C04, C03, C05
 //@   opaque follows
 //@   requires s != nil && s.metricsData != nil && s.metricsData.procMetricsData != nil && rmOK(s.resources) && !ifacenil(s.filterTree) && actions != nil && actions.Request != nil && actions.Response != nil && xlen >= 0 && flen >= 0
-//@   requires graphOK()
+//@   requires graphOK() && rankedOK()
 //@   modifies s.apiStreams, now, xn, xo, xp, xlen, xpar, drops, fl, flen, actions.Request.Actions, actions.Response.Actions, allof(flowMetricsData.totalFlowExecutionTimeNs), allof(flowMetricsData.totalFlowExecutions), allof(flowMetricsData.requestsThroughFlowsCounter), allof(flowMetricsData.avgFlowExecutionTime), smapof(regCtx(s.resources).ctx)
 //@   allocates ProcessorIO, FilterResult, shortCircuitOperation, Stream, RequestStream, ResponseStream
 //@   ensures[no-match-passes-through] !found ==> result == nil && flen == old(flen) && xlen == old(xlen) && actions.Request.Actions == old(actions.Request.Actions) && actions.Response.Actions == old(actions.Response.Actions)
